@@ -540,8 +540,8 @@ fn format_directive<'entry>(
             }
         }
 
-        FormatDirective::Type { follow_links } => if file_info.path_is_symlink() {
-            if *follow_links {
+        FormatDirective::Type { follow_links } => if *follow_links {
+            if file_info.path_is_symlink() {
                 match file_info.path().metadata().map_err(WalkError::from) {
                     Ok(meta) => format_non_link_file_type(meta.file_type().into()),
                     Err(e) if e.is_not_found() => 'N',
@@ -549,10 +549,15 @@ fn format_directive<'entry>(
                     Err(_) => '?',
                 }
             } else {
-                'l'
+                format_non_link_file_type(file_info.file_type())
             }
         } else {
-            format_non_link_file_type(file_info.file_type())
+            // %y is the type -type tests: a link that the follow mode resolves
+            // is reported as what it points to
+            match file_info.file_type() {
+                FileType::Symlink => 'l',
+                file_type => format_non_link_file_type(file_type),
+            }
         }
         .to_string()
         .into(),
